@@ -94,6 +94,7 @@ func cmdFn(args []string) {
 		}
 		t1 := time.Now()
 		r.Discharge(govc.SolveOptions{Timeout: *timeout, Dir: "/tmp/govc-smt"})
+		r = e.Rebind(r, govc.SolveOptions{Timeout: *timeout, Dir: "/tmp/govc-smt"})
 		fmt.Printf("== %s: %d obligations (gen %.2fs, solve %.2fs)\n", k, len(r.Obls), gen.Seconds(), time.Since(t1).Seconds())
 		for _, n := range r.Unsup {
 			fmt.Println("   UNSUPPORTED:", n)
